@@ -26,7 +26,7 @@ structure St where
   tr : Tracker := {}
   -- pending model outcome of the last `dg`
   pendRes : Option (Except Exn (Tracker × Eff)) := none
-  pendWf : Bool := false
+  pendClass : Option Dispatch := none
   pendUnk : Bool := false
   corrOk : Bool := true
   judgeOk : Bool := true
@@ -76,7 +76,7 @@ def stepOp (st : St) (toks : List String) : St :=
         | .ok (some (_, h)) => hasUnk h
         | _ => false
       { st with pendRes := some (recv genFixes st.cfg ep st.tr dat loc src now),
-                pendWf := wellFormed st.cfg ep dat loc src now, pendUnk := unk }
+                pendClass := classify st.cfg ep dat loc src now, pendUnk := unk }
     | _, _, _, _, _ => corrFail st "bad dg line"
   | "eff" :: rest =>
     let f := kvs rest
@@ -96,9 +96,12 @@ def stepOp (st : St) (toks : List String) : St :=
       let st := { st with pendRes := none }
       -- judge: the implementation's observation only
       let o : C02.Obs := ⟨(if raised = "-" then none else some raised), cb, sends, timers, before, after⟩
-      let wf := st.pendWf || st.pendUnk
-      let st := if ok wf o then st
-                else judgeFail st s!"{if o.raised.isSome then "raised " ++ raised else "dropped-but-not-inert"} wf={st.pendWf} cb={cb} sends={sends} timers={timers} before={before.length} after={after.length}"
+      -- a value outside the model (URL outside the grammar): only "no raise" is judged
+      let verdict := if st.pendUnk then o.raised.isNone else ok st.pendClass o
+      let what := if o.raised.isSome then "raised " ++ raised
+                  else if st.pendClass.isSome then "well-formed-but-not-dispatched" else "dropped-but-not-inert"
+      let st := if verdict then st
+                else judgeFail st s!"{what} class={repr st.pendClass} cb={cb} sends={sends} timers={timers} before={before.length} after={after.length}"
       -- correspondence
       if st.pendUnk then
         -- outside the model: adopt the implementation's tracker state and go on
